@@ -1607,6 +1607,8 @@ class CongMacro(Macro):
         
         ctx = set()
         for prev in prevs:
+            if not prev.prop.is_equals():
+                raise VeriTException("cong", "premises should be equalities")
             ctx.add((prev.lhs, prev.rhs))
             ctx.add((prev.rhs, prev.lhs))
 
